@@ -298,7 +298,9 @@ func TestC09Live(t *testing.T) {
 		if err := json.Unmarshal(r.Case, &c); err != nil {
 			t.Fatalf("bad replay case: %v", err)
 		}
+		stopR := vkit.WatchLive("C09", "TestC09Live", &c, 60*time.Second, "harness/c09.")
 		_, v, err := runLive(&c)
+		stopR()
 		if err != nil {
 			t.Fatalf("replay infrastructure error: %v", err)
 		}
@@ -312,7 +314,7 @@ func TestC09Live(t *testing.T) {
 		if len(c.Steps) == 0 {
 			return
 		}
-		stop := vkit.Watch(c, 120*time.Second)
+		stop := vkit.WatchLive("C09", "TestC09Live", c, 120*time.Second, "harness/c09.")
 		seen, v, err := runLive(c)
 		stop()
 		if err != nil {
@@ -519,7 +521,9 @@ func TestC09Diff(t *testing.T) {
 		if err := json.Unmarshal(r.Case, &c); err != nil {
 			t.Fatalf("bad replay case: %v", err)
 		}
+		stopR := vkit.WatchLive("C09", "TestC09Diff", &c, 90*time.Second, "harness/c09.")
 		_, _, v, err := runDiff(&c)
+		stopR()
 		if err != nil {
 			t.Fatalf("replay infrastructure error: %v", err)
 		}
@@ -530,7 +534,7 @@ func TestC09Diff(t *testing.T) {
 	}
 	rapid.Check(t, func(rt *rapid.T) {
 		c := genDiff(rt)
-		stop := vkit.Watch(c, 180*time.Second)
+		stop := vkit.WatchLive("C09", "TestC09Diff", c, 180*time.Second, "harness/c09.")
 		ap, dn, v, err := runDiff(c)
 		stop()
 		if err != nil {
@@ -622,7 +626,9 @@ func TestC09Scatter(t *testing.T) {
 		if err := json.Unmarshal(r.Case, &c); err != nil {
 			t.Fatalf("bad replay case: %v", err)
 		}
+		stopR := vkit.WatchLive("C09", "TestC09Scatter", &c, 60*time.Second, "harness/c09.")
 		vkit.Report(t, "C09", "TestC09Scatter", &c, runScatter(&c))
+		stopR()
 	}
 	if vkit.ReplayOnly() {
 		return
@@ -637,7 +643,7 @@ func TestC09Scatter(t *testing.T) {
 		} else {
 			c.N = rapid.IntRange(1, 5000).Draw(rt, "n")
 		}
-		stop := vkit.Watch(c, 120*time.Second)
+		stop := vkit.WatchLive("C09", "TestC09Scatter", c, 120*time.Second, "harness/c09.")
 		v := runScatter(c)
 		stop()
 		vkit.S.Eval()
